@@ -34,6 +34,7 @@ SOFTWARE.
 
 #%% 
 import numpy as np
+from fractions import Fraction
 from .objects import Fxp, implements
 from . import utils
 from . import _n_word_max
@@ -84,6 +85,11 @@ def _get_sizing(vars, sizing, method, optimal_size=None):
             n_word = int(signed) + n_int + n_frac
 
         return signed, n_word, n_int, n_frac
+
+def _scale_down_exact(val, n_bits_dropped):
+        # exact integer codes that lose `n_bits_dropped` fraction bits and have more bits than a float holds: they are handed over
+        # as rationals, so that the store rounds the exact value (a float factor 2**-k would round it to 53 bits first)
+        return np.array(np.array(val, dtype=object) * Fraction(1, 1 << n_bits_dropped), dtype=object)
 
 def _needs_python_int(x, y, n_frac):
         # the aligned sum/difference needs one bit more than the wider aligned operand; 64-bit integer types hold
@@ -321,6 +327,9 @@ def add(x, y, out=None, out_like=None, sizing='optimal', method='raw', **kwargs)
     """
     """
     def _add_raw(x, y, n_frac):
+        n_frac_exact = max(x.n_frac, y.n_frac)
+        if n_frac < n_frac_exact and max(x.n_word + n_frac_exact - x.n_frac, y.n_word + n_frac_exact - y.n_frac) + 1 > 53:
+            return _scale_down_exact(_add_raw(x, y, n_frac_exact), n_frac_exact - n_frac)
         precision_cast = (lambda m: np.array(m, dtype=object)) if _needs_python_int(x, y, n_frac) else (lambda m: m)
         return x.val * precision_cast(2**(n_frac - x.n_frac)) + y.val * precision_cast(2**(n_frac - y.n_frac))
 
@@ -342,6 +351,10 @@ def sub(x, y, out=None, out_like=None, sizing='optimal', method='raw', **kwargs)
     """
     """
     def _sub_raw(x, y, n_frac):
+        n_frac_exact = max(x.n_frac, y.n_frac)
+        if n_frac < n_frac_exact and max(x.n_word + n_frac_exact - x.n_frac, y.n_word + n_frac_exact - y.n_frac) + 1 > 53:
+            # (python integers: a negative difference of unsigned codes must not wrap at zero before it is scaled)
+            return _scale_down_exact(np.array(x.val, dtype=object) * 2**(n_frac_exact - x.n_frac) - np.array(y.val, dtype=object) * 2**(n_frac_exact - y.n_frac), n_frac_exact - n_frac)
         precision_cast = (lambda m: np.array(m, dtype=object)) if _needs_python_int(x, y, n_frac) else (lambda m: m)
         return x.val * precision_cast(2**(n_frac - x.n_frac)) - y.val * precision_cast(2**(n_frac - y.n_frac))
 
@@ -363,6 +376,8 @@ def mul(x, y, out=None, out_like=None, sizing='optimal', method='raw', **kwargs)
     """
     """
     def _mul_raw(x, y, n_frac):
+        if n_frac < x.n_frac + y.n_frac and x.n_word + y.n_word > 53:
+            return _scale_down_exact(_mul_raw(x, y, x.n_frac + y.n_frac), x.n_frac + y.n_frac - n_frac)
         n_bits = x.n_word + y.n_word + max(n_frac - x.n_frac - y.n_frac, 0)
         python_int = n_frac >= _n_word_max or n_bits >= 63 or (x.signed != y.signed and n_bits >= 53)
         precision_cast = (lambda m: np.array(m, dtype=object)) if python_int else (lambda m: m)
